@@ -41,3 +41,17 @@ func runeCuts(s string) []int {
 	}
 	return cuts
 }
+
+// genOtherBlock draws a block id different from id: either unrelated or differing in a single byte.
+func genOtherBlock(rt *rapid.T, id ulid.ULID) ulid.ULID {
+	if rapid.Bool().Draw(rt, "unrelatedBlock") {
+		o := genULID(rt, "block2")
+		if o != id {
+			return o
+		}
+	}
+	o := id
+	i := rapid.IntRange(0, 15).Draw(rt, "byte")
+	o[i] ^= byte(1 << rapid.IntRange(0, 6).Draw(rt, "bit"))
+	return o
+}
